@@ -70,7 +70,14 @@ fn gen(g: &mut G, thorough: bool) -> Plan {
         _ => *g.pick(&[500u16, 502, 503, 599]),
     };
     let success = (200..300).contains(&status);
-    let mut head = format!("HTTP/1.1 {} Whatever\r\n", status).into_bytes();
+    // (no draw) proxies answer CONNECT in every dialect: HTTP/1.0, no reason phrase, the classic phrase
+    let mut head = match status % 4 {
+        0 => format!("HTTP/1.0 {} Connection established\r\n", status),
+        1 => format!("HTTP/1.1 {}\r\n", status),
+        2 => format!("HTTP/1.1 {} \r\n", status),
+        _ => format!("HTTP/1.1 {} Whatever\r\n", status),
+    }
+    .into_bytes();
     for i in 0..g.below(4) {
         head.extend_from_slice(format!("X-Proxy-{}: {}\r\n", i, "v".repeat(g.size(2000))).as_bytes());
     }
